@@ -52,10 +52,11 @@ func zipContains(raw, sig []byte, msoCheck bool) bool {
 		return false
 	}
 
+	nameLen := binary.LittleEndian.Uint16(raw[0x1A:])
 	if !b.advance(0x1E) {
 		return false
 	}
-	if bytes.HasPrefix(b, sig) {
+	if nameHasPrefix(b, nameLen, sig) {
 		return true
 	}
 
@@ -89,7 +90,9 @@ func zipContains(raw, sig []byte, msoCheck bool) bool {
 	if !b.advance(nextHeader) {
 		return false
 	}
-	if bytes.HasPrefix(b, sig) {
+	// b is now 0x1E bytes past the header that was found, at its file name.
+	nameLen = binary.LittleEndian.Uint16(raw[len(raw)-len(b)-4:])
+	if nameHasPrefix(b, nameLen, sig) {
 		return true
 	}
 
@@ -104,11 +107,22 @@ func zipContains(raw, sig []byte, msoCheck bool) bool {
 		if !b.advance(nextHeader + 0x1E) {
 			return false
 		}
-		if bytes.HasPrefix(b, sig) {
+		nameLen = binary.LittleEndian.Uint16(raw[len(raw)-len(b)-4:])
+		if nameHasPrefix(b, nameLen, sig) {
 			return true
 		}
 	}
 	return false
+}
+
+// nameHasPrefix reports whether the file name which starts at the beginning of
+// b and is nameLen bytes long starts with sig. What follows the name (extra
+// field, file content) is not part of it.
+func nameHasPrefix(b readBuf, nameLen uint16, sig []byte) bool {
+	if int(nameLen) < len(b) {
+		b = b[:nameLen]
+	}
+	return bytes.HasPrefix(b, sig)
 }
 
 // APK matches an Android Package Archive.
